@@ -276,6 +276,23 @@ func RunBashStepLimited(dir string, script string, limit int, o RunOpts) RunResu
 	return RunBash(dir, body, o)
 }
 
+// DecideTimeout is called when a RunBash watchdog fired. Wall time says nothing on a loaded machine,
+// so the script is run again under a logical step limit in a fresh directory given by prepare():
+// "nonterm" = the step limit was exceeded (a verdict), "finished" = it ran to its end (its result
+// replaces the timed-out one), "inconclusive" = the second watchdog fired as well.
+func DecideTimeout(script string, stepLimit int, o RunOpts, prepare func() string) (verdict string, r RunResult) {
+	dir := prepare()
+	defer os.RemoveAll(dir)
+	r = RunBashStepLimited(dir, script, stepLimit, o)
+	switch {
+	case r.Exit == 97 && !r.TimedOut:
+		return "nonterm", r
+	case r.TimedOut:
+		return "inconclusive", r
+	}
+	return "finished", r
+}
+
 // ---- parallel map ----
 
 func parallelDo(n int, workers int, fn func(i int)) {
